@@ -8,9 +8,9 @@ WT=$(mktemp -d /tmp/wt_verify_XXXX)
 git -C /repo worktree add --detach -f $WT HEAD >/dev/null 2>&1
 mkdir -p $WT/_seeded/x; cp $SRC/demo.py $WT/_seeded/x/demo.py
 cd $WT
-echo "== demo on clean tree"; /venv/bin/python _seeded/x/demo.py >/tmp/demo_clean.log 2>&1; echo "exit=$? $(tail -1 /tmp/demo_clean.log)"
+echo "== demo on clean tree"; PYTHONPATH=$WT OMP_NUM_THREADS=1 /venv/bin/python _seeded/x/demo.py >$WT/_demo_clean.log 2>&1; echo "exit=$? $(tail -1 $WT/_demo_clean.log)"
 if ! git apply $SRC/patch.diff; then echo "PATCH DOES NOT APPLY"; fi
-echo "== demo on patched tree"; /venv/bin/python _seeded/x/demo.py >/tmp/demo_patched.log 2>&1; echo "exit=$? $(tail -1 /tmp/demo_patched.log)"
+echo "== demo on patched tree"; PYTHONPATH=$WT OMP_NUM_THREADS=1 /venv/bin/python _seeded/x/demo.py >$WT/_demo_patched.log 2>&1; echo "exit=$? $(tail -1 $WT/_demo_patched.log)"
 if [ "${SKIP_TESTS:-0}" != "1" ]; then
 echo "== test suite on patched tree"; OMP_NUM_THREADS=1 MKL_NUM_THREADS=1 timeout 2400 /venv/bin/python -m pytest -q -p no:cacheprovider --timeout=900 -n ${NPROC:-8} 2>&1 | tail -2
 fi
